@@ -21,7 +21,7 @@ suite green (288/288):
   refactor produces: an off-by-one at a threshold, a dropped state guard, two
   swapped fields, one DFA cell, ...). Mutants that turned out to be equivalent
   were removed, not kept as "misses".
-* `seeded/<ID>/`, `seeded/<ID>b/` ... `seeded/<ID>f/` - six rounds of one change per property, each made by an **independent agent** that
+* `seeded/<ID>/`, `seeded/<ID>b/` ... `seeded/<ID>i/` - nine rounds of one change per property, each made by an **independent agent** that
   was given only the property text and a scratch worktree (nothing from
   `/verif`), asked for a change that needs something specific to manifest (an
   interleaving, a fault at a particular point, a multi-step sequence, an unusual
